@@ -255,6 +255,101 @@ func checkMinMax(c listCase) *harness.Failure {
 	return nil
 }
 
+// ---- before/after between dates of different granularity ----------------------------------------
+
+type orderCase struct {
+	A [3]int `json:"a"` // year, month (0 = none), day (0 = none)
+	B [3]int `json:"b"`
+}
+
+// checkMixedOrder: "the fractional-year value used for ordering ... and before/after comparisons":
+// for any two dates, whatever their granularity, IsBefore and IsAfter say what the order of
+// their Years values says (at Date, DateRange-less DateNode level alike).
+func checkMixedOrder(c orderCase) *harness.Failure {
+	a, b := day(c.A), day(c.B)
+	ya, yb := a.Years(), b.Years()
+	if got, want := a.IsBefore(b), ya < yb; got != want {
+		return harness.Failf("before-disagrees-with-years", "%s.IsBefore(%s) = %v, Years are %v and %v", a, b, got, ya, yb)
+	}
+	if got, want := a.IsAfter(b), ya > yb; got != want {
+		return harness.Failf("after-disagrees-with-years", "%s.IsAfter(%s) = %v, Years are %v and %v", a, b, got, ya, yb)
+	}
+	na, nb := gedcom.NewDateNode(a.String()), gedcom.NewDateNode(b.String())
+	if na.IsValid() && nb.IsValid() {
+		if got, want := na.IsBefore(nb), na.Years() < nb.Years(); got != want {
+			return harness.Failf("node-before-disagrees-with-years", "DateNode %q IsBefore %q = %v, Years are %v and %v", a.String(), b.String(), got, na.Years(), nb.Years())
+		}
+		if got, want := na.IsAfter(nb), na.Years() > nb.Years(); got != want {
+			return harness.Failf("node-after-disagrees-with-years", "DateNode %q IsAfter %q = %v, Years are %v and %v", a.String(), b.String(), got, na.Years(), nb.Years())
+		}
+	}
+	return nil
+}
+
+func TestCheckOrderMixedGranularity(t *testing.T) {
+	s := harness.NewSub("order-of-mixed-granularity",
+		"every ordered pair of dates of any granularity (year, month-year, full day) inside the years 1899..1901 and 1999..2000 (thorough: also 1, 2, 9998, 9999): IsBefore and IsAfter agree with the order of the Years values, for Date and for DateNode; non-trivial = the two dates have different granularity")
+	s.SetExhaustive(true)
+	years := []int{1899, 1900, 1901, 1999, 2000}
+	if harness.Thorough() {
+		years = append(years, 1, 2, 9998, 9999)
+	}
+	var all [][3]int
+	for _, y := range years {
+		all = append(all, [3]int{y, 0, 0})
+		for m := 1; m <= 12; m++ {
+			all = append(all, [3]int{y, m, 0})
+			for d := 1; d <= ref.DaysIn(y, m); d += 3 {
+				all = append(all, [3]int{y, m, d})
+			}
+			all = append(all, [3]int{y, m, ref.DaysIn(y, m)})
+		}
+	}
+	shard, ns := harness.Shard(), harness.NShards()
+	gran := func(x [3]int) int {
+		switch {
+		case x[1] == 0:
+			return 0
+		case x[2] == 0:
+			return 1
+		}
+		return 2
+	}
+	for i, a := range all {
+		if i%ns != shard {
+			continue
+		}
+		var n, nt int64
+		for _, b := range all {
+			if gran(a) == 2 && gran(b) == 2 && (a[0] != b[0] || a[1] != b[1]) {
+				continue // day against day in another month: the other sub-checks own that
+			}
+			c := orderCase{A: a, B: b}
+			n++
+			if gran(a) != gran(b) {
+				nt++
+			}
+			if fl := checkMixedOrder(c); fl != nil {
+				s.Report(c, fl)
+			}
+		}
+		s.EvalN(n, nt)
+		if i%97 == 3 {
+			s.Sample(orderCase{A: a, B: all[(i*7)%len(all)]})
+		}
+	}
+}
+
+func init() {
+	harness.RegisterReplay("order-of-mixed-granularity", func(raw json.RawMessage) *harness.Failure {
+		var c orderCase
+		if err := json.Unmarshal(raw, &c); err != nil {
+			return harness.Failf("bad-replay", "%v", err)
+		}
+		return checkMixedOrder(c)
+	})
+}
+
 func TestCheckRandom(t *testing.T) {
 	pairs := harness.NewSub("random-day-pairs", "random pairs of days over years 1..9999, biased to year ends and leap days: Years/IsBefore/IsAfter agree with civil-day order; non-trivial = the two days differ")
 	pairs.Rapid(t, harness.Share(harness.Pick(200000, 60000000)), 1, func(rt *rapid.T) {
